@@ -82,7 +82,7 @@ def py_bounded(run, prop, direction, args):
 
 
 def py_proof(run, prop, args):
-    """Python serializers UNDER CONTRACT (props/pyprog.py): the real generated `_serialize_` of every corpus type and every
+    """Python codecs UNDER CONTRACT (serializers for C01, deserializers for C02).  Serializers: Python serializers UNDER CONTRACT (props/pyprog.py): the real generated `_serialize_` of every corpus type and every
     shape (array lengths, union options), E-PY against Enc_T derived from the pydsdl model, with the support-library
     primitives replaced by their C14 contracts."""
     import multiprocessing
@@ -103,7 +103,7 @@ def py_proof(run, prop, args):
             m, c = py_leg.mod_cls(lang, t)
             jobs.append((i, str(PP.CORPUS / "vk"), t.full_name, (t.version.major, t.version.minor), (work / (m.replace(".", "/") + ".py")).read_text(), m, c, str(SRC)))
         with multiprocessing.get_context("fork").Pool(min(14, len(jobs))) as pool:
-            out = pool.map(pyprog.generate, jobs, chunksize=1)
+            out = pool.map(pyprog.generate if prop == "C01" else pyprog.generate_des, jobs, chunksize=1)
     finally:
         shutil.rmtree(work, ignore_errors=True)
     obs = []
@@ -120,7 +120,7 @@ def py_proof(run, prop, args):
             outside[str(t)] = f"{len(info['shapes_outside_the_subset'])} of {info['shapes'] + len(info['shapes_outside_the_subset'])} shapes: {info['shapes_outside_the_subset'][0]}"
         if len(o) + info.get("trivial", 0) == 0 or info.get("returns", 0) == 0:
             run.undecide(f"py:{t}: vacuity guard (obligations={len(o)}, normal exits={info.get('returns', 0)})")
-        run.add_function(f"generated Python {t}._serialize_ ({info['shapes']} shapes, {len(o)} obligations)")
+        run.add_function(f"generated Python {t}.{'_serialize_' if prop == 'C01' else '_deserialize_'} ({info['shapes']} shapes/cases, {len(o)} obligations)")
         for a in info.get("assumed", []):
             run.assume("py: " + a)
         for x in o:
@@ -128,9 +128,11 @@ def py_proof(run, prop, args):
         obs.extend(o)
     res = smt.solve_all(obs)
     run.add_results(res)
-    run.notes["python_serializers_not_under_contract"] = outside
-    run.assume("py: contracts of the Serializer primitives (proved under C14 for every bit length and cursor position); ASSUMED contracts of the NumPy/struct based primitives "
-               "(add_*_array_of_standard_bit_length_primitives, add_*_array_of_bits, add_*_f16/f32/f64: they place the elements' / the packed float's bits at the cursor)",
+    run.notes["python_serializers_not_under_contract" if prop == "C01" else "python_deserializers_not_under_contract"] = outside
+    run.assume("py: contracts of the Serializer/Deserializer primitives (proved under C14 for every bit length and cursor position); ASSUMED contracts of the NumPy/struct based primitives "
+               "(add_/fetch_*_array_of_standard_bit_length_primitives, *_array_of_bits, *_f16/f32/f64: they place / read the elements' and the packed float's bits at the cursor); "
+               "deserializers: the generated constructors as ASSUMED from C18 (a value outside the DSDL range or an over-long array raises ValueError, otherwise it is stored); each shape's "
+               "contract is conditioned on the input's length prefixes / union tags taking that shape's values, and every prefix/tag beyond its bound must raise FormatError",
                "py: data-object invariant of `self` (scalar integers within the DSDL range, finite float16/float32 scalars within the type's range, array elements within the NumPy element type): "
                "established by the generated setters (C18)")
     seen = set()
@@ -170,7 +172,7 @@ def main(prop=PROP, direction=("ser",), kinds=KINDS, title="serializers", extra=
     cpp_bounded(run, prop, direction, args)
     if prop in ("C01", "C02"):
         py_bounded(run, prop, direction, args)
-    if prop == "C01":
+    if prop in ("C01", "C02"):
         py_proof(run, prop, args)
     tpls = tuple(t for d, t in (("ser", "serialization.j2"), ("des", "deserialization.j2")) if d in direction)
     PP.template_error_guards(run, tpls)
